@@ -46,6 +46,10 @@ CLAIMS.update({
     "C08": dict(engine="lib", note=LIB_NOTE, technique="runtime monitoring: set-algebra oracle on real AllocateCpus/ReleaseCpus calls over generated machines, subsets, counts and options; repeat-call determinism",
                 text="Exploration: hundreds of thousands of real allocator calls on generated machines (hybrid, L2 clusters, offline CPUs, cpufreq/EPP priority classes), every result checked for exact count, subset, bookkeeping of the mutated set, failure on too-large counts and determinism (same allocator, twin allocator); thorough enumerates small machines completely.",
                 ref="DESIGN.md §4 C08"),
+    "C10": dict(engine="lib", category="fault_enumeration", note=LIB_NOTE + " Faults are injected with strace (SIGKILL or an errno at the n-th matching syscall of the pinned saving thread); strace kills at call entry, so partial writes of the temporary file are covered by planting every prefix of a snapshot instead. Says nothing about durability across power loss (no fsync in the code; out of scope).",
+                technique="runtime monitoring with fault injection: strace-injected SIGKILL/errno at every write/rename/open/close of the cache file and its temp file, load-after-crash vs pre/post state hashes; getter fingerprint round trip; refusal matrix",
+                text="Fault enumeration: (1) thousands of generated caches are saved and reloaded, and a fingerprint over every public getter (identity, state, resources, requirements and updates, tags, hints, affinities, policy entries) must be equal; (2) child processes performing K saving operations are killed at every system call touching the cache file or its temporary file, and get ENOSPC/EIO/EDQUOT/EACCES injected at the same points: the state directory must load without error and equal the state before or after the interrupted operation; (3) every prefix of a snapshot planted as the temporary file must be ignored; (4) the cache file is only ever replaced by rename; (5) a cache file, state directory or container directory that is a symlink, of the wrong type or group/other-writable must be refused with nothing changed, and valid set-ups accepted.",
+                ref="DESIGN.md §4 C10, §10.9"),
     "C11": dict(engine="rm", category="fault_enumeration", technique="runtime monitoring with fault injection: plugin restarts on current/stale state directories with runtime drift, reference (cache-less) plugin as oracle",
                 text="Fault enumeration: histories with 1-2 restarts; the state directory is snapshotted at a PRNG-chosen request boundary, the plugin is taken down, the runtime drifts (containers created/started/stopped/removed), the plugin restarts on the current or the stale directory and is synchronized; the oracle checks that exactly the runtime's live containers hold allocations (decided against a cache-less reference plugin synchronized with the same lists), that gone pods/containers are purged, and all C01-C05/C09/C12 monitors on the restart and on every later request.",
                 ref="DESIGN.md §4 C11"),
